@@ -125,6 +125,8 @@ def scratch_dir():
 def write_files(files, d):
     for name, content in files.items():
         p = os.path.join(d, name)
+        if "/" in name:
+            os.makedirs(os.path.dirname(p), exist_ok=True)
         with open(p, "wb") as fh:
             fh.write(content)
 
